@@ -353,6 +353,38 @@ class Exec:
                         return
                 st.events.append(Event("drop", bb, frame, body, place=pl, value=val, ty=t["ty"],
                                        adt=t.get("adt"), span=t.get("span")))
+                # a value (or Option of a value) of a type introduced by a refactoring that has its own Drop impl (an RAII
+                # witness replacing a scope guard): dropping it runs that impl
+                db = self._new_drop_impl(t["ty"])
+                if db is not None and self.models and len(frame) < 6 and db.name not in frame:
+                    inner_ty, optional = db._for
+                    cases = [(st, val)]
+                    if optional:
+                        if isinstance(val, tuple) and val[0] == "agg" and val[2] in ("Some", "None"):
+                            cases = [(st, val[3][0])] if val[2] == "Some" else []
+                            none_case = [st] if val[2] == "None" else []
+                        else:
+                            cases, none_case = [], []
+                            for (s2, is_some, payload) in _opt_cases(st, val, bb, frame, body, t.get("span")):
+                                if is_some:
+                                    cases.append((s2, payload))
+                                else:
+                                    none_case.append(s2)
+                        for s2 in none_case:
+                            for r in self._run(body, s2, t["target"], onpath, frame):
+                                yield r
+                    for (s2, v) in cases:
+                        s2.events.append(Event("enter", bb, frame, body, target=db.name, ntarget=norm(db.name), args=[("ref", v)],
+                                               span=t.get("span")))
+                        for (st3, ex, _ret) in self._inline(db, s2, [("ref", v)], frame, bb, body, untuple=False):
+                            if ex[0] != "return":
+                                yield (st3, ex if ex[0] == "diverge" else ("retry-inner", db.name), None)
+                                continue
+                            st3.events.append(Event("leave", bb, frame, body, target=db.name, ntarget=norm(db.name), ret=_ret,
+                                                    span=t.get("span")))
+                            for r in self._run(body, st3, t["target"], onpath, frame):
+                                yield r
+                    return
                 bb = t["target"]
                 continue
             if k == "switch":
@@ -628,6 +660,28 @@ class Exec:
             return ("agg", "repeat", None, (self._operand(body, st, rv["op"]), ("c", rv["n"], "usize")), None, ())
         return ("unk", "rvalue:" + rv.get("debug", k)[:40], fresh())
 
+    def _new_drop_impl(self, ty):
+        """Drop impl body of a *new* local type (not part of the baseline vocabulary) for a dropped value of type `ty` or
+        `Option<ty>`; None otherwise"""
+        cache = self.__dict__.setdefault("_drop_cache", {})
+        if ty in cache:
+            return cache[ty]
+        res = None
+        inner, optional = ty, False
+        if ty.startswith("std::option::Option<") and ty.endswith(">"):
+            inner, optional = ty[len("std::option::Option<"):-1], True
+        base = re.sub(r"<.*$", "", inner)
+        helpers = self.prog.auto_inline()
+        for n, b in self.prog.bodies.items():
+            if b.j.get("impl_trait") == "std::ops::Drop" and b.name.endswith("::drop") and \
+                    re.sub(r"<.*$", "", b.j.get("impl_self") or "") == base and base and \
+                    not base.startswith(("std::", "core::", "alloc::")) and self.prog.is_new_type(base):
+                res = b
+                res._for = (inner, optional)
+                break
+        cache[ty] = res
+        return res
+
     # -------------------------------------------------------------- calls
     def _closure_body(self, term):
         t = term
@@ -699,7 +753,11 @@ class Exec:
         # -- higher-order models
         if self.models:
             mk = nt
-            if nt and nt.endswith(" as std::ops::Try>::branch"):
+            if nt and nt.endswith(" as std::iter::Iterator>::any"):
+                mk = "std::iter::Iterator::any"
+            elif nt and nt.endswith(" as std::iter::Iterator>::all"):
+                mk = "std::iter::Iterator::all"
+            elif nt and nt.endswith(" as std::ops::Try>::branch"):
                 mk = "std::ops::Try::branch"
             elif nt and nt.endswith(">::from_residual") and " as std::ops::FromResidual<" in nt:
                 mk = "std::ops::FromResidual::from_residual"
@@ -1605,6 +1663,66 @@ def _model_option_filter(ex, body, st, bb, t, c, args, frame, cont, target, nt, 
                     yield r
 
 
+def _mk_iter_any(kind):
+    def model(ex, body, st, bb, t, c, args, frame, cont, target, nt, span):
+        """Iterator::any / all (f) as the loop it is: next(); None -> false/true; Some(x) -> f(x) decides or goes on.
+        The iterator's `next` is reported as a call event of `<I as Iterator>::next`, as a `for` loop would."""
+        it, clos = args[0], args[1] if len(args) > 1 else None
+        cb = ex._closure_body(clos)
+        if cb is None:
+            return
+        full = (c.full or "") if c is not None else ""
+        m = re.match(r"^<(.*) as std::iter::Iterator>::(any|all)", full)
+        ity = m.group(1) if m else "I"
+        ntgt = "<%s as std::iter::Iterator>::next" % ity
+        stop_on = 1 if kind == "any" else 0          # the closure result that ends the traversal
+        rounds = max(1, ex.unroll)
+
+        def step(s, k):
+            res = ("call", ntgt, (("ref", it),), fresh())
+            s.events.append(Event("call", bb, frame, body, target=ntgt, ntarget=norm(ntgt), args=[("ref", it)], result=res,
+                                  callee=_FakeCallee(ntgt), span=span, fterm=None, pure=False))
+            s.memver += 1
+            # None: the traversal ended
+            s0 = s.fork()
+            s0.known[("disc", res)] = 0
+            s0.events.append(Event("cond", bb, frame, body, term=("disc", res), value=0, exp=False, span=span, is_bool=False))
+            for r in cont(s0, ("c", 1 - stop_on, "bool")):
+                yield r
+            s1 = s.fork()
+            s1.known[("disc", res)] = 1
+            s1.events.append(Event("cond", bb, frame, body, term=("disc", res), value=1, exp=False, span=span, is_bool=False))
+            item = ("field", "0", ("variant", "Some", res))
+            for (s2, ret, ex_) in _run_closure(ex, body, s1, bb, frame, cb, clos, [item], target, nt, span, "predicate"):
+                if ex_ is not None:
+                    yield (s2, ex_, None)
+                    continue
+                vals = [ret[1]] if isinstance(ret, tuple) and ret[0] == "c" and isinstance(ret[1], int) else [1, 0]
+                for v in vals:
+                    s3 = s2.fork() if len(vals) > 1 else s2
+                    if len(vals) > 1:
+                        key, vv = ret, v
+                        while isinstance(key, tuple) and key[0] == "un" and key[1] == "Not":
+                            key, vv = key[2], 1 - vv
+                        kn = s3.known.get(key)
+                        if kn is not None and isinstance(kn, int) and kn != vv:
+                            continue
+                        s3.known[key] = vv
+                        s3.events.append(Event("cond", bb, frame, body, term=key, value=vv, exp=False, span=span, is_bool=True))
+                    if v == stop_on:
+                        for r in cont(s3, ("c", stop_on, "bool")):
+                            yield r
+                    elif k + 1 < rounds:
+                        for r in step(s3, k + 1):
+                            yield r
+                    else:
+                        ex._count()
+                        yield (s3, ("retry", bb), None)
+        for r in step(st, 0):
+            yield r
+    return model
+
+
 def _model_try_branch(ex, body, st, bb, t, c, args, frame, cont, target, nt, span):
     """<Option<T>/Result<T,E> as Try>::branch: Continue(payload) / Break(residual)"""
     o = args[0]
@@ -1699,6 +1817,8 @@ def _model_cell_replace(ex, body, st, bb, t, c, args, frame, cont, target, nt, s
 
 
 HIGHER_ORDER = {
+    "std::iter::Iterator::any": _mk_iter_any("any"),
+    "std::iter::Iterator::all": _mk_iter_any("all"),
     "std::ops::Try::branch": _model_try_branch,
     "std::ops::FromResidual::from_residual": _model_from_residual,
     "core::num::nonzero::NonZero::new": _model_nonzero_new,
